@@ -132,7 +132,7 @@ fn main() {
             }
         }
     }
-    let mut health_errors: Vec<String> = Vec::new();
+    let mut health_errors: Vec<String> = harness_faults();
     for c in &report.required_classes {
         if report.result.stats.classes.get(*c).copied().unwrap_or(0) == 0 {
             health_errors.push(format!("generator health: advertised class '{}' has no member in this run", c));
